@@ -484,7 +484,19 @@ func (s *Server) handlePostTx(w http.ResponseWriter, r *http.Request) {
 		return
 	}
 
-	// TODO(fwd): Ensure halt lock is held by caller.
+	// Ensure halt lock is held by caller on the current primary.
+	lockID, err := strconv.ParseInt(q.Get("lockID"), 10, 64)
+	if err != nil {
+		Error(w, r, fmt.Errorf("invalid lockID: %q", q.Get("lockID")), http.StatusBadRequest)
+		return
+	} else if !s.store.IsPrimary() {
+		Error(w, r, fmt.Errorf("cannot commit, node is not primary"), http.StatusServiceUnavailable)
+		return
+	} else if haltLock := db.HaltLock(); haltLock == nil || haltLock.ID != lockID {
+		Error(w, r, fmt.Errorf("halt lock not held: %d", lockID), http.StatusConflict)
+		return
+	}
+
 	// TODO(fwd): Prevent halt lock release during copy & apply.
 
 	// Wrap request body in a chunked reader.
